@@ -1731,6 +1731,8 @@ def run(ctx) -> Result:
         "approximator cases (exact stream): scheme x ordered component subset (all ordered subsets of n<=4 systematically) x "
         "scalar/per-component power-of-two steps 2^-8..2^-26 (cs also 2^-30..2^-300) passed as argument or to the constructor "
         "x design space none/physical/normalised with points on, within one step of, and inside the bounds, zero components, "
+        "tight design spaces (frozen components lb == ub, intervals narrower than one / two steps: neither x+h nor x-h is "
+        "admissible; a dedicated stream forces one on a differentiated component, serial and multiprocessing-parallel), "
         "integer polynomials of degree<=3 (cs<=4), 1-3 outputs, scalar outputs, serial and multiprocessing-parallel; the same "
         "cases through OptimizationProblem(differentiation_method) with a physical-space function; sessions (one approximator: "
         "default step, step setter, generate_perturbations, kwargs, input array reused in place, compute_optimal_step call "
@@ -1740,8 +1742,11 @@ def run(ctx) -> Result:
         "A case is non-trivial when n>=2 or m>=2 (sessions and discipline cases always); distinct by protocol line(s)"
     )
     res.assumptions = [
-        "steps are positive and not larger than the width of the bounds (numerically safe range); the point lies within its bounds",
-        "centered differences next to a bound (x±h outside the bounds) may fall back to a one-sided quotient: first-order bound there",
+        "steps are positive (numerically safe range 2^-8..2^-26, decimal 1e-3..1e-7 on the rounded stream); the point lies within its bounds; "
+        "the bounds may be of any width, including frozen components (lb == ub) and intervals narrower than the step",
+        "centered differences next to a bound (x±h outside the bounds) may fall back to a one-sided quotient: first-order bound there; "
+        "forward/centered differences may evaluate below a lower bound when no direction is admissible (the property names upper bounds only)",
+        "a frozen component of a normalised design space has the working interval [0, 0] (DesignSpace.normalize_vect divides by 1 when ub == lb)",
         "complex step: the step is relative to the component (x_c*h, or h when x_c = 0) as documented by the code; truncation term delta^2/6*sup|f'''| allowed besides rounding",
         "per-component steps have one entry per input component (DisciplineJacApprox docstring); entry c is the step of component c",
         "rounding: an allowance of 2^-50*(1+|derivative|+bound) is added to every analytic bound",
@@ -1749,9 +1754,9 @@ def run(ctx) -> Result:
     rng = ctx.rng
     corpus = load_corpus()
     approx_corpus = [c["case"] for c in corpus if "case" in c]
-    for c in corpus:
-        if "case" in c:
-            check_cases(res, [c["case"]], rng, True, c.get("parallel"))
+    # (batched by evaluation mode: one start of the Lean driver per batch)
+    for mode in (None, "process"):
+        check_cases(res, [c["case"] for c in corpus if "case" in c and c.get("parallel") == mode], rng, True, mode)
     disc_corpus = [c["disc_case"] for c in corpus if "disc_case" in c]
     check_disc_cases(res, disc_corpus)
     check_sessions(res, [c["session"] for c in corpus if "session" in c])
